@@ -138,7 +138,7 @@ func main() {
 	run.MaxVio = 40
 	run.Rule("URL = path of 1..3 segments (quick: 1..2) from {a, a%20b, a=b, a&b, trackID=5, %41, a%2Fb, %C3%BC, a@b} x query {none, x=1, x=1&y=2, p=/q, t=/trackID=7, a=%2F, u=a@b} " +
 		"x authority {127.0.0.1:8554, [::1]:8554, localhost:8554} x user-info {none, u:p, u:p%40x (thorough only)}; complete product, no sampling. " +
-		"Part A: x media count 1..3 x flow {play: DESCRIBE, SETUP each media in the order (n=2: 1,0; n=3: 2,0,1), PLAY, PAUSE, TEARDOWN; record: ANNOUNCE, SETUPs, RECORD, PAUSE, TEARDOWN} over TCP, one fresh server+client per execution. " +
+		"Part A: x media count 1..3 x flow {play: DESCRIBE, SETUP each media in the order (n=2: 1,0; n=3: 2,0,1), PLAY, PAUSE, TEARDOWN; record: ANNOUNCE, SETUPs, RECORD, PAUSE, TEARDOWN} over TCP, one fresh server+client per execution; plus, per URL, two play cases with 2 medias and an additional back-channel media in the served description at index 0 / 1 which the client does not ask for (the client's media numbering differs from the server's). " +
 		"Part B: x control style (14 styles, see unit.go) x media count 1..3 x media index. non-trivial = URL has at least one feature beyond the plain /a on IPv4 without query and user-info; distinct = the case tuple. " +
 		"A failing case is reported only when no simpler case of the space (one feature removed: segment kind -> a, one segment dropped, query -> x=1 -> none, authority -> IPv4, user-info escaped -> plain -> none, one media less) fails in the same way; the URL class in the signature lists the features of that minimal case (signatures: <flow>/<step>/<failure>/<class>, wire/<failure>/<class>, unit/<play|record>/<failure>/<class>/<control style>).")
 	run.Assume("handler convention, read from getPathAndQuery for the plain URL /a/b?x=1: Path = decoded path with its leading slash (\"/a/b\"), Query = raw query without '?' (\"x=1\"); the same convention is demanded for every URL (so %41 -> \"/A\", a%2Fb -> \"/a/b\", a%20b -> \"/a b\"); calibrated at run time")
